@@ -34,8 +34,15 @@ claim("C04",
       "(reads past EOF modelled as short); decided per path by z3, witnesses replayed through the unpatched VHD class.",
       TRUST, "symbolic execution of vhd.py + z3 equivalence against a specification oracle", "4.4")
 
+claim("C06",
+      "For HDS v1 and v2, every enumerated sectors-per-cluster value (including values that are not a power of two) and "
+      "every symbolic BAT length, disk size, BAT content and 512-aligned request of up to N clusters, the real "
+      "HDS.__init__/bat/_iter_runs/_read return exactly the bytes the parallels.txt oracle names; decided per path by z3 "
+      "(bit-vector and integer encodings), witnesses replayed through the unpatched HDS class.",
+      TRUST, "symbolic execution of hdd.py (HDS) + z3 equivalence against a specification oracle", "4.6")
+
 PENDING = "check not built yet in this round (planned: see DESIGN.md section 4)"
-for _p in ("C01", "C02", "C06", "C07", "C08", "C09", "C10", "C11", "C12", "C13", "C14", "C15", "C17", "C20"):
+for _p in ("C01", "C02", "C07", "C08", "C09", "C10", "C11", "C12", "C13", "C14", "C15", "C17", "C20"):
     NOT_APPLICABLE[_p] = PENDING
 NOT_APPLICABLE["C16"] = ("the property's content (cstruct writers, AES-GCM, PBKDF2) sits behind C boundaries that would have "
                          "to be stubbed; nothing of the repository's own arithmetic would remain to be decided (DESIGN 5)")
